@@ -500,6 +500,24 @@ pub fn shipped_store(arg: &str) -> (bool, String) {
     let d = |p: &Passkey| desc(&p.credential_id);
     let ids_of = |r: &Result<Vec<Passkey>, StatusCode>| -> Vec<Vec<u8>> { r.as_ref().map(|v| v.iter().map(|p| p.credential_id.to_vec()).collect()).unwrap_or_default() };
     match arg {
+        // id lists with several entries, same RP throughout (the RP binding is D7a / D7b, not looked at here): a list that names the held
+        // credential among others finds it, a list that does not name it finds nothing
+        "option-lists" | "memory-lists" => {
+            let other = || desc(&[0xee; 16]);
+            let mut mem = MemoryStore::new();
+            mem.insert(pk_a.credential_id.to_vec(), pk_a.clone());
+            let opt: Option<Passkey> = Some(pk_a.clone());
+            let lists: Vec<(&str, Vec<PublicKeyCredentialDescriptor>, bool)> = vec![
+                ("[held]", vec![d(&pk_a)], true), ("[held, other]", vec![d(&pk_a), other()], true), ("[other, held]", vec![other(), d(&pk_a)], true),
+                ("[other, held, other]", vec![other(), d(&pk_a), other()], true), ("[other]", vec![other()], false), ("[other, other]", vec![other(), other()], false)];
+            for (name, l, want) in lists {
+                let r = if arg == "option-lists" { block_on(opt.find_credentials(Some(&l), "a.example")) } else { block_on(mem.find_credentials(Some(&l), "a.example")) };
+                let got = ids_of(&r);
+                if want && got != vec![pk_a.credential_id.to_vec()] { return (true, format!("{arg}: store holding one credential, lookup ({name}, its RP): found {} credential(s), the list names the held one", got.len())); }
+                if !want && !got.is_empty() { return (true, format!("{arg}: store holding one credential, lookup ({name}, its RP): a credential the list does not name is returned")); }
+            }
+            (false, "shipped stores match id lists with several entries".into())
+        }
         "option" => {
             let store: Option<Passkey> = Some(pk_a.clone());
             let r = block_on(store.find_credentials(None, "b.example"));
@@ -607,4 +625,67 @@ fn c02_alg() -> (bool, String) {
         }
     }
     (false, format!("algorithm choice agrees with the statement over {n} preference lists"))
+}
+
+/// C05 / C07 / C11, the lock wrappers shipped with the library (Arc<Mutex<S>>, Arc<RwLock<S>>, Mutex<S>, RwLock<S>): every operation of
+/// a wrapped store is the operation of the store it wraps -- same result (errors included), same effect, the capability the store reports.
+pub fn lock_wrappers(arg: &str) -> (bool, String) {
+    // arg: find | save | update | info (one operation), anything else: all four
+    let on = |op: &str| -> bool { !matches!(arg, "find" | "save" | "update" | "info") || arg == op };
+    use tokio::sync::{Mutex as TMutex, RwLock as TRwLock};
+    let seed = RefStore::new(0);
+    register(&seed, "a.example", true);
+    register(&seed, "a.example", true);
+    let held: Vec<Passkey> = seed.items.lock().unwrap().clone();
+    let fresh = |disc: u8| { let s = RefStore::new(disc); *s.items.lock().unwrap() = held.clone(); s };
+    let code = |r: &Result<(), StatusCode>| -> Option<String> { r.as_ref().err().map(|e| format!("{e:?}")) };
+    let sc = |b: Option<u8>| -> Option<String> { b.map(|b| format!("{:?}", StatusCode::from(b))) };
+    // one scenario against one wrapper; `w` names it.  The wrapped RefStore shares `items` with `probe`, so effects are visible.
+    macro_rules! scenarios { ($w:expr, $mk:expr) => {{
+        for disc in if on("info") { vec![0u8, 1, 2] } else { vec![] } {
+            let probe = fresh(disc);
+            let st = $mk(probe.clone());
+            let got = block_on(st.get_info()).discoverability;
+            let want = block_on(probe.get_info()).discoverability;
+            if got != want { return (true, format!("{}: get_info reports another discoverability than the wrapped store (capability #{disc})", $w)); }
+        }
+        for fail in if on("find") { vec![None, Some(0x2eu8), Some(0x7f), Some(0x01)] } else { vec![] } { for ids in [false, true] {
+            let mut probe = fresh(0); probe.fail_find = fail;
+            let st = $mk(probe.clone());
+            let l = [desc(&held[1].credential_id)];
+            let a = block_on(st.find_credentials(if ids { Some(&l) } else { None }, "a.example"));
+            let b = block_on(probe.find_credentials(if ids { Some(&l) } else { None }, "a.example"));
+            let same = match (&a, &b) { (Ok(x), Ok(y)) => x.iter().map(|p| p.credential_id.to_vec()).collect::<Vec<_>>() == y.iter().map(|p| p.credential_id.to_vec()).collect::<Vec<_>>(), (Err(x), Err(y)) => format!("{x:?}") == format!("{y:?}"), _ => false };
+            if !same { return (true, format!("{}: find_credentials (ids given: {ids}, wrapped store failing with {fail:?}) answers differently from the wrapped store", $w)); }
+        } }
+        for fail in if on("save") { vec![None, Some(0x28u8), Some(0x7f)] } else { vec![] } {
+            let mut probe = fresh(0); probe.fail_save = fail;
+            let mut st = $mk(probe.clone());
+            let mut cred = held[0].clone(); cred.credential_id = vec![0x77; 16].into();
+            let user = make_credential::PublicKeyCredentialUserEntity { id: vec![1].into(), display_name: None, name: None, icon_url: None };
+            let rp = make_credential::PublicKeyCredentialRpEntity { id: "a.example".into(), name: None };
+            let r = block_on(st.save_credential(cred, user, rp, make_credential::Options { rk: true, up: true, uv: true }));
+            if code(&r) != sc(fail) { return (true, format!("{}: save_credential on a store answering {fail:?} returned {:?}", $w, code(&r))); }
+            let n = probe.items.lock().unwrap().len();
+            if n != held.len() + usize::from(fail.is_none()) { return (true, format!("{}: after save_credential (store answering {fail:?}) the wrapped store holds {n} credentials", $w)); }
+        }
+        // update: the wrapped store's answer is the answer, and an accepted update is in the wrapped store -- whatever a lookup would say
+        for (fail_update, fail_find, gone) in if !on("update") { vec![] } else { vec![(None, None, false), (Some(0x7fu8), None, false), (Some(0x28), None, false), (None, Some(0x7fu8), false), (None, Some(0x2e), false), (None, None, true)] } {
+            let mut probe = fresh(0); probe.fail_update = fail_update; probe.fail_find = fail_find;
+            let mut cred = held[0].clone(); cred.counter = Some(41);
+            if gone { probe.items.lock().unwrap().retain(|p| p.credential_id != cred.credential_id); }
+            let mut st = $mk(probe.clone());
+            let r = block_on(st.update_credential(cred.clone()));
+            let mut reference = probe.clone(); reference.items = std::sync::Arc::new(std::sync::Mutex::new(if gone { held[1..].to_vec() } else { held.clone() }));
+            let want = block_on(reference.update_credential(cred.clone()));
+            if code(&r) != code(&want) { return (true, format!("{}: update_credential (store: update {fail_update:?}, lookups {fail_find:?}, credential removed: {gone}) returned {:?}, the wrapped store answers {:?}", $w, code(&r), code(&want))); }
+            let stored = probe.items.lock().unwrap().iter().find(|p| p.credential_id == cred.credential_id).and_then(|p| p.counter);
+            if want.is_ok() && stored != Some(41) { return (true, format!("{}: update_credential returned success (lookups {fail_find:?}) but the wrapped store holds counter {stored:?}, not the 41 it was given", $w)); }
+        }
+    }} }
+    scenarios!("Arc<Mutex<S>>", |s: RefStore| Arc::new(TMutex::new(s)));
+    scenarios!("Arc<RwLock<S>>", |s: RefStore| Arc::new(TRwLock::new(s)));
+    scenarios!("Mutex<S>", |s: RefStore| TMutex::new(s));
+    scenarios!("RwLock<S>", |s: RefStore| TRwLock::new(s));
+    (false, "the four lock wrappers forward every operation".into())
 }
